@@ -437,6 +437,8 @@ class Run:
                 else:
                     if stats is not None:
                         self._st(hs, depth, 'reject-unterminated-args')
+                    if not top:
+                        self.flags.add('unterminated-inside-argument')
                     raise Reject('unterminated-args')
                 if nlspace:
                     a = (a[0], a[1], True, a[3], a[4])
